@@ -64,28 +64,42 @@ Record cspec := {
   s_maxnb   : option mnb;
   s_mmap    : option Z;
   s_prefer  : option Z;
-  s_require : option Z
+  s_require : option Z;
+  s_byname  : bool;      (* the backend is passed as a registered NAME (a str), not as an instance *)
+  s_inner   : option Z;  (* inner_max_num_threads *)
+  s_params  : bool       (* extra **backend_params are passed *)
 }.
 
 (* dict.update with the non-sentinel entries *)
 Definition ov {A} (new old : option A) : option A := match new with Some _ => new | None => old end.
 
-(* parallel_config._check_backend, for arguments without inner_max_num_threads / backend_params *)
-Definition check_backend (b : option bspec) (old : config) : result (option cbk) :=
-  match b with
-  | None => Ok None
+(* parallel_config._check_backend: everything that can reject the call runs BEFORE anything is installed.
+   - no backend given but inner_max_num_threads / extra backend_params given: ValueError;
+   - unknown name: ValueError;  an INSTANCE together with backend_params: ValueError;
+   - inner_max_num_threads with a backend that does not support it (only LokyBackend does): `assert` -> AssertionError
+     (OtherError 2);
+   - nesting_level inherited from the enclosing context's backend when the instance has none. *)
+Definition supports_inner (k : ckind) : bool := match k with BLoky => true | _ => false end.
+Definition is_some {A} (o : option A) : bool := match o with Some _ => true | None => false end.
+
+Definition check_backend (s : cspec) (old : config) : result (option cbk) :=
+  match s_backend s with
+  | None => if is_some (s_inner s) || s_params s then Raise ValueError else Ok None
   | Some BInvalid => Raise ValueError
   | Some (BInst k lvl) =>
-      let l := match lvl with
-               | Some l => l
-               | None => match c_backend old with None => 0 | Some pb => clevel pb end
-               end in
-      Ok (Some {| ck := k; clevel := l |})
+      if negb (s_byname s) && s_params s then Raise ValueError
+      else if is_some (s_inner s) && negb (supports_inner k) then Raise (OtherError 2)
+      else
+        let l := match lvl with
+                 | Some l => l
+                 | None => match c_backend old with None => 0 | Some pb => clevel pb end
+                 end in
+        Ok (Some {| ck := k; clevel := l |})
   end.
 
 (* parallel_config.__init__: the new thread-local configuration (the old one is kept by the manager) *)
 Definition enter (s : cspec) (old : config) : result config :=
-  bind (check_backend (s_backend s) old) (fun b =>
+  bind (check_backend s old) (fun b =>
   Ok {| c_backend := ov b (c_backend old);
         c_njobs   := ov (s_njobs s) (c_njobs old);
         c_verbose := ov (s_verbose s) (c_verbose old);
@@ -103,7 +117,8 @@ Definition norm_spec (m : mgr) (s : cspec) : cspec :=
   | MBackend =>
       {| s_backend := s_backend s;
          s_njobs := match s_njobs s with None => Some (Some (-1)) | v => v end;
-         s_verbose := None; s_temp := None; s_maxnb := None; s_mmap := None; s_prefer := None; s_require := None |}
+         s_verbose := None; s_temp := None; s_maxnb := None; s_mmap := None; s_prefer := None; s_require := None;
+         s_byname := s_byname s; s_inner := s_inner s; s_params := s_params s |}
   end.
 
 (* _get_config_param: explicit argument, else the context's value, else the default *)
